@@ -638,7 +638,8 @@ namespace fixedmath
   [[ nodiscard, gnu::const, gnu::always_inline ]]
   constexpr fixed_t angle_to_radians( integral_type angle ) noexcept
     {
-    if( angle >= integral_type(0) && angle <= integral_type(360) )
+    //360 is not representable in 8 bit types, compare values not converted bounds
+    if( cxx20::cmp_greater_equal( angle, 0 ) && cxx20::cmp_less_equal( angle, 360 ) )
       return integral_to_fixed(angle) * fixedmath::phi / 180;
     return quiet_NaN_result(); 
     }
